@@ -98,10 +98,11 @@ def rule2_dec(ctx, v):
     last = []
     for ic in f.order:
         if ic.op == 'icmp' and ic.pred in ('eq', 'ne'):
-            l = masked_count(f, ic.ops[0])
-            a = affine(f, ic.ops[1])
-            ld = [k for k in a if k in f.insts and f.insts[k].op == 'load' and f.field(f.insts[k]) == N]
-            if l is not None and f.sources(s) == {l.id} and len(ld) == 1 and a.get(ld[0]) == 1 and a.get('', 0) == -1:
+            # any arrangement of  (s & mask) == n_threads - 1
+            d = lib.affine_diff(f, ic.ops[0], ic.ops[1])
+            ms = [k for k in d if masked_count(f, k) is not None and f.sources(s) == {masked_count(f, k).id}]
+            ns = lib.load_terms(f, d, N)
+            if len(ms) == 1 and len(ns) == 1 and len([k for k in d if k != '']) == 2 and d[ms[0]] == -d[ns[0]] and d.get('', 0) == d[ms[0]]:
                 last.append(ic)
     ctx.ob('C07.2', 'last-decrement test', len(last) == 1, '(s & mask) == n_threads - 1 on the CAS\'s expected value', loc=f.loc)
     for w in wakes:
